@@ -24,6 +24,14 @@ pub fn names() -> Vec<String> {
     // builtins that exist only with optional features: without them these are ordinary unknown names
     v.extend(["random", "str::regex_matches", "str::regex_replace"].iter().map(|s| s.to_string()));
     v.extend(["MAX", "Len", "TypeOf", "math::Sqrt", "STR::from", "Math::abs", "sqrt", "from", "math::max", "str::len", "max_", "_len", "math::", "::len"].iter().map(|s| s.to_string()));
+    // names of unusual lexical classes (round 11): digits and underscores only, a leading digit, non-ASCII
+    // symbols, primes and combining marks, non-ASCII letters, invisible characters that are not white space,
+    // ASCII punctuation that is no operator — every one of them is an ordinary identifier
+    v.extend(
+        ["_1", "_0", "1_", "__7", "_", "\u{221a}", "\u{2211}", "f\u{2032}", "cafe\u{301}", "x\u{2032}y", "\u{3bb}", "gr\u{f6}\u{df}e", "a\u{200b}b", "\u{feff}f", "a.b", "a#b", "f$", "@f", "\u{540d}\u{524d}", "f?", "a'b", "0x", "1e", "0xg"]
+            .iter()
+            .map(|s| s.to_string()),
+    );
     v
 }
 
@@ -361,7 +369,7 @@ pub fn run(cfg: &Cfg) -> Report {
     Report {
         property: ID,
         level: "model_checking",
-        rule: format!("for each of 69 names (49 builtins; foo, math::foo, str::nothing; 14 near-builtin names differing in letter case, namespace or one character; the 3 names that are builtins only with optional features): every history of length <= {depth} over {{disable builtins, enable, clone-and-continue, clone_from into a used context, clear_functions, clear_variables, clear, define user function n, define failing user function n, bind variable n}} from an empty HashMapContext (contains the complete switch x user-function x variable x {{as built, clone, cleared}} matrix), plus EmptyContext and EmptyContextWithBuiltinFunctions; in every configuration reached, 36 call forms, each evaluated through `Node::eval_with_context` and (HashMapContext) through `Node::eval_with_context_mut` on a clone (`n(x)`, `n x` with int and string (also without a gap before the quote, followed by an operator, and under a prefix minus), `n()`, `n(x, y)`, `n(x, y, z)`, `typeof n x`, `n typeof x`, bare `n`, `n + 1`); oracle: reference resolution (user function first with the documented argument shape, recorded; else builtin table of C10 if enabled; else unknown function) . States = configurations, transitions = evaluations. Non-trivial = configurations reached by >= 2 operations"),
+        rule: format!("for each of 93 names (49 builtins; foo, math::foo, str::nothing; 14 near-builtin names differing in letter case, namespace or one character; the 3 names that are builtins only with optional features; 24 names of unusual lexical classes: digits and underscores only, a leading digit, non-ASCII symbols, primes, combining marks and letters, invisible characters that are not white space, ASCII punctuation that is no operator): every history of length <= {depth} over {{disable builtins, enable, clone-and-continue, clone_from into a used context, clear_functions, clear_variables, clear, define user function n, define failing user function n, bind variable n}} from an empty HashMapContext (contains the complete switch x user-function x variable x {{as built, clone, cleared}} matrix), plus EmptyContext and EmptyContextWithBuiltinFunctions; in every configuration reached, 36 call forms, each evaluated through `Node::eval_with_context` and (HashMapContext) through `Node::eval_with_context_mut` on a clone (`n(x)`, `n x` with int and string (also without a gap before the quote, followed by an operator, and under a prefix minus), `n()`, `n(x, y)`, `n(x, y, z)`, `typeof n x`, `n typeof x`, bare `n`, `n + 1`); oracle: reference resolution (user function first with the documented argument shape, recorded; else builtin table of C10 if enabled; else unknown function) . States = configurations, transitions = evaluations. Non-trivial = configurations reached by >= 2 operations"),
         nontrivial_set: "counter:nontrivial-distinct",
         exhaustive: true,
         bound_completed: format!("histories of length {depth}"),
